@@ -986,9 +986,11 @@ impl NotificationProtocol {
         match context.state {
             // protocol can only request a new outbound substream to be opened if the state is
             // `Closed` other states imply that it's already open
+            // the pending substream can be reused only if it is still being opened: if it has already
+            // failed to open, it is no longer tracked in `pending_outbound` and a new one must be opened
             PeerState::Closed {
                 pending_open: Some(substream_id),
-            } => {
+            } if self.pending_outbound.contains_key(&substream_id) => {
                 tracing::trace!(
                     target: LOG_TARGET,
                     ?peer,
